@@ -1,8 +1,9 @@
 (* Run functions of the properties whose case streams include registry
    (stage B2) cases besides their own. *)
-From DG Require Import Base.Util Base.Sexp Model.Jsr Model.RunJsr Model.RunC01 Model.RunC05 Model.RunC07 Model.RunC06 Model.RunC13.
+From DG Require Import Base.Util Base.Sexp Model.Jsr Model.RunJsr Model.Decl Model.RunDecl Model.RunC01 Model.RunC05 Model.RunC07 Model.RunC06 Model.RunC13.
 
-Definition run_c01j : sexp -> sexp := with_jsr run_c01.
+(* C01 also has declaration-layer cases *)
+Definition run_c01j : sexp -> sexp := fun s => if is_decl_case s then run_decl s else with_jsr run_c01 s.
 Definition run_c03 : sexp -> sexp := with_jsr run_c01.
 Definition run_c04 : sexp -> sexp := with_jsr run_c01.
 Definition run_c05j : sexp -> sexp := with_jsr run_c05.
